@@ -16,6 +16,7 @@ from crosshair.core import realize
 from crosshair.libimpl import builtinslib as bl
 from crosshair.statespace import context_statespace
 from crosshair.tracers import NoTracing
+from crosshair.util import CrossHairValue
 
 SOLVER = {"calls": 0, "seconds": 0.0}
 _INSTALLED = False
@@ -171,6 +172,10 @@ def install_noise_patches() -> None:
 
     register_patch(functools.partial.__call__, _partial_call)
 
+
+
+def _install_format() -> None:
+    """symbolic string formatting (f-strings in error messages must not realise their arguments)."""
     # f"...{byte}" in error messages: stock CrossHair realises a symbolic int in __format__, which
     # turns "for every marker byte" into a 255-deep enumeration chain.  With an empty format spec
     # format(n) == repr(n) for ints, and CrossHair's SymbolicInt.__repr__ is symbolic (decimal
@@ -232,10 +237,21 @@ def install_noise_patches() -> None:
     def _format(obj, format_spec=""):
         with NoTracing():
             is_sym_int = isinstance(obj, bl.SymbolicInt)
+            is_sym_str = isinstance(obj, bl.AnySymbolicStr)
+            is_ch = isinstance(obj, CrossHairValue)
+            plain_spec = type(format_spec) is str and format_spec == ""
         if is_sym_int:
             r = _symbolic_int_format(obj, format_spec)
             if r is not None:
                 return r
+        if is_sym_str and plain_spec:
+            return obj  # format(s, "") is s
+        if not is_ch and plain_spec:
+            # an ordinary object that may hold symbolic fields (dataclass, exception): format(o, "") is
+            # str(o) unless the type overrides __format__; nothing is realised here
+            tf = type(obj).__format__
+            if tf is object.__format__:
+                return str(obj)
         if _stock_format is not None:
             return _stock_format(obj, format_spec)
         return format(obj, format_spec)
@@ -250,3 +266,4 @@ def install() -> None:
     _INSTALLED = True
     _install_bitops()
     _install_counters()
+    _install_format()
